@@ -425,16 +425,25 @@ WARM = (0, 3, 12)
 
 
 def _transient(cls):
-    """scratch fields: assigned unconditionally by the first statement of a method M (without reading the field)
-    and read only by methods that the run loop calls after M in the same iteration. Returns {field: why}."""
+    """scratch fields: assigned unconditionally by a top-level statement of a method M that precedes every other kind of statement (the
+    straight-line prefix of M), without reading the field, and read only by methods that the run loop calls after M in the same iteration.
+    Returns {field: why}."""
     sc = sh.scan(cls)
     out = {}
     for name, defs in sc.methods.items():
         for owner, fn in defs:
             if name in sh.INIT_LIKE or not fn.body:
                 continue
-            st = fn.body[0]
-            if isinstance(st, ast.Assign) and len(st.targets) == 1:
+            prefix = []
+            for st in fn.body:
+                if isinstance(st, ast.Expr) and isinstance(st.value, ast.Constant):
+                    continue      # docstring
+                if not isinstance(st, ast.Assign):
+                    break
+                prefix.append(st)
+            for st in prefix:
+                if len(st.targets) != 1:
+                    continue
                 t = st.targets[0]
                 if isinstance(t, ast.Attribute) and isinstance(t.value, ast.Name) and t.value.id == "self":
                     f = t.attr
@@ -1670,11 +1679,11 @@ def ob_guard_transient():
             t = _transient(r.cls)
             if t:
                 exempt[r.cls.__name__] = t
-            if set(t) - {"saved_tensors"}:
-                raise Undecided("unexpected scratch field(s) %s in %s" % (sorted(t), r.cls.__name__))
+            if len(t) > 4:
+                raise Undecided("%d scratch fields in %s: %s - too many for a proposal buffer, look at them" % (len(t), r.cls.__name__, sorted(t)))
         return {"backend": "ast", "exempt": exempt,
-                "statement": "fields exempted from the comparison are assigned unconditionally by the first statement of step() and read only by reject()/_step(), "
-                             "which MCMC.run calls after step() and before the checkpoint of the same iteration"}
+                "statement": "fields exempted from the comparison are assigned unconditionally in the straight-line prefix of step() and read only by reject()/_step(), "
+                             "which MCMC.run calls after step() and before the checkpoint of the same iteration (the exemption follows from that shape, not from the names)"}
     return fn
 
 
